@@ -365,5 +365,14 @@ func scenarioFacts(p *Plan, ri int) map[string]string {
 	default:
 		f["path"] = "reencode"
 	}
+	// the response direction re-encodes only when the codecs differ (compression is the backend's choice)
+	switch {
+	case f["path"] == "passthrough" || f["path"] == "prep":
+		f["rpath"] = f["path"]
+	case r.Client.Codec == n.Codec:
+		f["rpath"] = "reframe"
+	default:
+		f["rpath"] = "reencode"
+	}
 	return f
 }
